@@ -182,6 +182,57 @@ Theorem C10_system_history_known_hosts :
 Proof. exact sys_history_known_hosts. Qed.
 Print Assumptions C10_system_history_known_hosts.
 
+(* ---- the known_hosts FILE over time: the content at the moment of an open decides ---- *)
+
+(* SSHKnownHosts(file) reads and parses the file at every construction and keeps nothing of an earlier read
+   anywhere (class, module, decorator caches, file-metadata tests), and the library transports construct it
+   inside every check (regenerated from the source): the reader of the code as written is [reuse_never] *)
+Theorem C10_known_hosts_read_at_every_check :
+  all_true gen_known_hosts_memo_free = true /\ (14 <= length gen_known_hosts_memo_free)%nat.
+Proof. vm_compute. split; [reflexivity|repeat constructor]. Qed.
+Print Assumptions C10_known_hosts_read_at_every_check.
+
+(* a reader that reuses what it read earlier ONLY for the same content (in particular: never) cannot be told
+   from reading the file at every open: for every history of file versions (modification time, content) and
+   scenarios, from every sound memo state, the events of each open are those of the entry its own content gives *)
+Theorem C10_known_hosts_memo_transparent :
+  forall lookup_text reuse, (forall a b, reuse a b = true -> v_text a = v_text b) ->
+  forall l h m, memo_sound lookup_text m -> run_memo lookup_text reuse l m h = memo_spec lookup_text l h.
+Proof. exact memo_transparent. Qed.
+Print Assumptions C10_known_hosts_memo_transparent.
+
+(* hence the per-open guarantee with the file content AT THAT OPEN deciding — edited in place, with or
+   without the modification time moving, or replaced by rename *)
+Theorem C10_known_hosts_content_decides :
+  forall lookup_text reuse, (forall a b, reuse a b = true -> v_text a = v_text b) ->
+  forall l h m s tr, memo_sound lookup_text m ->
+    In (s, tr) (run_memo lookup_text reuse l m h) ->
+    strict s = true -> key_bad s = true -> (l = Asyncssh -> agrees s) ->
+    no_offer tr = true /\ (handshake_ok s = true -> ends_with AuthenticationFailed tr = true).
+Proof. exact memo_history_protects. Qed.
+Print Assumptions C10_known_hosts_content_decides.
+
+(* it holds of the code as written and of a content-validated memo; it is refuted (vm_compute witness: the
+   entry replaced by a key of the same length, same modification time, the server still presenting the old
+   key) for a memo revalidated by the modification time, or by modification time and size *)
+Theorem C10_known_hosts_mtime_memo_refuted :
+  memo_full reuse_never /\ memo_full reuse_same_text /\
+  ~ memo_full reuse_same_stamp /\ ~ memo_full reuse_same_stamp_size.
+Proof.
+  exact (conj memo_full_never (conj memo_full_same_text memo_same_stamp_refuted)).
+Qed.
+Print Assumptions C10_known_hosts_mtime_memo_refuted.
+
+(* ---- asyncssh: the hypothesis on its matcher is needed (names vs. peer address) ---- *)
+(* with NO assumption on what asyncssh trusts the statement is false of the asyncssh transport: asyncssh matches
+   known_hosts entries by the dialled name OR the peer address; another key under the name + the server's key
+   under the address => Trusted, credentials inside connect(), scrapli's comparison afterwards (listed finding
+   c10-asyncssh-peer-address-entry).  C10_no_offer_before_verify is the partial: its hypothesis [agrees] excludes
+   exactly that region. *)
+Theorem C10_asyncssh_unconditional_refuted : ~ async_unconditional_full.
+Proof. exact async_unconditional_refuted. Qed.
+Print Assumptions C10_asyncssh_unconditional_refuted.
+
 (* ---- system transport: what ssh(1) is asked, for ALL arguments ---- *)
 Theorem C10_system_strict_effective :
   forall a, a_strict a = true -> host_ok (a_host a) = true ->
